@@ -742,7 +742,7 @@ pub fn gen_def(rng: &mut Rng, n_glyphs: u32) -> Def {
         f.dedup();
         Some(f)
     };
-    let design = if rng.chance(1, 8) {
+    let design = if rng.chance(1, 4) {
         None
     } else if rng.chance(1, 2) {
         Some(vec![])
@@ -883,7 +883,9 @@ impl Gen<'_> {
         let mut used_ids: BTreeSet<u32> = BTreeSet::new();
         for i in 0..n_entries {
             let kind = self.rng.below(20);
-            let format = if depth >= 2 {
+            // an entry may repeat the previous entry's id: both then name the same (glyph-keyed) patch
+            let dup_prev = i > 0 && entries[i - 1].format == 3 && self.rng.chance(1, 12);
+            let format = if dup_prev || depth >= 2 {
                 3
             } else if kind == 0 && allow_full {
                 1
@@ -896,7 +898,7 @@ impl Gen<'_> {
             let mut features: Vec<Tag4> = if self.rng.chance(1, 4) { (0..1 + self.rng.below(2)).map(|_| *self.rng.pick(&FEATS)).collect() } else { vec![] };
             features.sort();
             features.dedup();
-            let design = if self.rng.chance(1, 5) { gen_design(self.rng) } else { vec![] };
+            let design = if self.rng.chance(if format == 3 { 1 } else { 3 }, 5) { gen_design(self.rng) } else { vec![] };
             let mut children = Vec::new();
             let mut conjunctive = false;
             if i > 0 && self.rng.chance(1, 5) {
@@ -911,7 +913,9 @@ impl Gen<'_> {
                 }
             }
             // ids: ascending with occasional jumps; sometimes going back (negative delta)
-            let id = if string_ids {
+            let id = if dup_prev {
+                entries[i - 1].id.clone()
+            } else if string_ids {
                 let mut sid = format!("e{}", i).into_bytes();
                 if self.rng.chance(1, 3) {
                     let extra = 1 + self.rng.below(3) as usize;
@@ -968,7 +972,13 @@ impl Gen<'_> {
             if bf == 2 && max_rel >= (1 << 31) {
                 bf = 4;
             }
-            let patch = if format == 3 { self.glyph_patch(has_gvar, &cps) } else { self.table_patch(depth, slot, has_gvar, format == 1) };
+            let patch = if dup_prev {
+                entries[i - 1].patch
+            } else if format == 3 {
+                self.glyph_patch(has_gvar, &cps)
+            } else {
+                self.table_patch(depth, slot, has_gvar, format == 1)
+            };
             let ignored = self.rng.chance(1, 12);
             entries.push(Entry {
                 cps,
